@@ -68,26 +68,37 @@ func Run(run *vh.Run) {
 		}
 		return t
 	}
-	floor("successful transfer", run.Get("op:transfer:ok"), 60, 2400)
-	floor("successful transferFrom", run.Get("op:transferFrom:ok"), 40, 1600)
-	floor("successful approve", run.Get("op:approve:ok"), 80, 3200)
-	floor("successful burn", run.Get("op:burn:ok"), 15, 600)
-	floor("successful burnFrom", run.Get("op:burnFrom:ok"), 12, 500)
-	floor("spends on a finite allowance", run.Get("spends_on_finite_allowance"), 25, 1000)
-	floor("spends on an unlimited allowance", run.Get("spends_on_unlimited_allowance"), 12, 500)
-	floor("calls refused for insufficient allowance", sum("op:", "transferFrom:fail:insufficient-allowance", "burnFrom:fail:insufficient-allowance"), 60, 2400)
-	floor("calls refused for insufficient balance", sum("op:", "transfer:fail:insufficient-balance", "transferFrom:fail:insufficient-balance", "burn:fail:insufficient-balance", "burnFrom:fail:insufficient-balance"), 40, 1600)
-	floor("calls refused for locked (vesting) coins", sum("op:", "transfer:fail:locked-coins", "transferFrom:fail:locked-coins", "burn:fail:locked-coins", "burnFrom:fail:locked-coins"), 4, 160)
-	floor("failing calls checked for no effect", run.Get("failing_calls_checked_for_no_effect"), 400, 16000)
-	floor("successful calls reverted by an outer frame", sum("op:", "transfer:ok-then-reverted-by-outer-frame", "transferFrom:ok-then-reverted-by-outer-frame", "approve:ok-then-reverted-by-outer-frame", "burn:ok-then-reverted-by-outer-frame", "burnFrom:ok-then-reverted-by-outer-frame"), 20, 800)
-	floor("Transfer logs checked", run.Get("transfer_logs_checked"), 120, 5000)
-	floor("views compared inside transactions", run.Get("views_in_tx_compared"), 60, 2400)
-	floor("views compared through EthCall", run.Get("views_ethcall_compared"), 300, 12000)
-	floor("native-denomination moves by the fee payer", run.Get("native_moves_by_fee_payer"), 8, 300)
-	floor("malformed call data", sum("malformed:", "short", "empty", "sel-only", "wrong-selector"), 25, 1000)
-	floor("interleaved bank sends and value transfers", sum("interleaved_", "msgsend", "value-transfer"), 30, 1200)
-	run.Floor("distinct (call kind x amount class x holder kind)", int64(run.NontrivialN()), int64(run.N(70, 140)))
-	run.Floor("distinct routes x modes", int64(run.DistinctN("route_x_mode")), 30)
+	moving := []string{"transfer", "transferFrom", "burn", "burnFrom", "approve"}
+	per := func(suffix string) []string {
+		var out []string
+		for _, m := range moving {
+			out = append(out, m+suffix)
+		}
+		return out
+	}
+	// floors: at most ~45% of the smallest count seen at seeds 1..7 (quick); thorough = 35 x quick for 40 x the operations
+	floor("successful transfer", run.Get("op:transfer:ok"), 55, 1900)
+	floor("successful transferFrom", run.Get("op:transferFrom:ok"), 30, 1000)
+	floor("successful approve", run.Get("op:approve:ok"), 70, 2400)
+	floor("successful burn", run.Get("op:burn:ok"), 15, 500)
+	floor("successful burnFrom", run.Get("op:burnFrom:ok"), 14, 490)
+	floor("spends on a finite allowance", run.Get("spends_on_finite_allowance"), 20, 700)
+	floor("spends on an unlimited allowance", run.Get("spends_on_unlimited_allowance"), 6, 210)
+	floor("calls refused for insufficient allowance", sum("op:", "transferFrom:fail:insufficient-allowance", "burnFrom:fail:insufficient-allowance"), 85, 3000)
+	floor("calls refused for insufficient balance", sum("op:", per(":fail:insufficient-balance")...), 85, 3000)
+	floor("calls refused for locked (vesting) coins", sum("op:", per(":fail:locked-coins")...), 4, 140)
+	floor("failing calls checked for no effect", run.Get("failing_calls_checked_for_no_effect"), 450, 16000)
+	floor("successful calls reverted by an outer frame", sum("op:", per(":ok-then-reverted-by-outer-frame")...), 28, 1000)
+	floor("Transfer logs checked", run.Get("transfer_logs_checked"), 180, 6300)
+	floor("views compared inside transactions", run.Get("views_in_tx_compared"), 110, 3800)
+	floor("views after a write in the same transaction", run.Get("views_after_write_in_same_tx"), 40, 1400)
+	floor("views compared through EthCall", run.Get("views_ethcall_compared"), 1000, 35000)
+	floor("native-denomination moves by the fee payer", run.Get("native_moves_by_fee_payer"), 18, 630)
+	floor("malformed call data that must fail", sum("malformed:", "short", "empty", "sel-only", "wrong-selector"), 35, 1200)
+	floor("interleaved bank sends and value transfers", sum("interleaved_", "msgsend", "value-transfer"), 55, 1900)
+	floor("two-call transactions", run.Get("sequence_txs"), 130, 4500)
+	run.Floor("distinct (call kind x amount class x holder kind)", int64(run.NontrivialN()), int64(run.N(150, 300)))
+	run.Floor("distinct routes x modes", int64(run.DistinctN("route_x_mode")), int64(run.N(45, 100)))
 }
 
 func runWorld(run *vh.Run, label string, wi, nOps int) {
